@@ -135,6 +135,11 @@ func genCase(t *rapid.T) Case {
 			seen := map[uuid.UUID]bool{}
 			// one update request in four may name an id more than once (merged in order)
 			dupOK := rapid.IntRange(0, 3).Draw(t, fmt.Sprintf("udup%d", i)) == 0
+			if rapid.IntRange(0, 4).Draw(t, fmt.Sprintf("ubig%d", i)) == 0 {
+				// a long request (the API takes 100 points per update) that names ids again and again with
+				// conflicting values: the order of the occurrences of an id decides what is stored
+				cnt, dupOK = rapid.IntRange(13, 40).Draw(t, fmt.Sprintf("nubig%d", i)), true
+			}
 			for j := 0; j < cnt; j++ {
 				id := rapid.SampledFrom(pool).Draw(t, fmt.Sprintf("u%d.%d", i, j))
 				if seen[id] && !dupOK {
